@@ -462,6 +462,25 @@ def systematic(seed: int) -> List[J]:
                                        ("open", "open")))
     for it in ITYPES:
         out.append(texttable(r, it, 10, 1, "ranges"))
+    # continuous, strictly monotone piecewise-linear methods with decimal coefficients: the two
+    # segments' values at a common boundary differ by rounding noise only
+    for it in ("A_UINT32", "A_INT32"):
+        for pt in ("A_FLOAT64", "A_FLOAT32"):
+            for f1, f2, bnd in ((0.1, 0.5, 7), (0.3, 0.7, 11), (0.7, 0.1, 3), (0.1, 0.3, 9)):
+                n0 = float(Fraction(str(f1)) * bnd - Fraction(str(f2)) * bnd)
+                m = {"cat": "SCALE-LINEAR", "i2p": {"scales": [
+                    {"lo": (0, "CLOSED"), "hi": (bnd, "CLOSED"), "num": [0, f1], "den": []},
+                    {"lo": (bnd, "CLOSED"), "hi": (100, "CLOSED"), "num": [n0, f2], "den": []}]}}
+                out.append(case("SCALE-LINEAR", it, pt, 8, m, "cont-inc-decimal/2", kinds_of(m)))
+    # single-scale SCALE-RAT-FUNC with its exact (affine) inverse
+    for it in ("A_UINT32", "A_INT32"):
+        for pt in PTYPES_NUM:
+            for n0, n1, d0 in ((3, 2, 1), (-10, 4, 2), (0, 1, 1)):
+                m = {"cat": "SCALE-RAT-FUNC",
+                     "i2p": {"scales": [{"lo": (0, "CLOSED"), "hi": (100, "CLOSED"),
+                                         "num": [n0, n1], "den": [d0]}]},
+                     "p2i": {"scales": [{"num": [-n0, d0], "den": [n1]}]}}
+                out.append(case("SCALE-RAT-FUNC", it, pt, 8, m, "affine+inverse/1", kinds_of(m)))
     for j, it in enumerate(ITYPES):
         out.append(identical(it, j))
         out.append(identical(it, j + 1))
